@@ -32,3 +32,19 @@ Theorem C17_inject_flushes_what_it_wrote : forall s a bs s', inject s a bs = (s'
   o_trace s' = o_trace s ++ [EWrite a bs; EFlush a (a + zlen bs)].
 Proof. intros s a bs s' H. apply inject_spec in H. tauto. Qed.
 Print Assumptions C17_inject_flushes_what_it_wrote.
+
+(* the same at the level of the observable trace: the set of addresses written and not flushed since, RECOMPUTED from the
+   write / flush / munmap events alone, equals the bookkeeping o_dirty after any run (any script, kernel, exit kind, either
+   restoration order); with C17_clean_at_boundaries: replaying the trace leaves no address written after its last flush *)
+From Inj Require Import TraceDirty Amd64Install.
+Theorem C17_trace_dirty_is_bookkeeping : forall c reset lifo k ls, alloc_dirty (c_alloc c) ->
+  forall s0 ctr, dirty_from [] (o_trace s0) = o_dirty s0 ->
+  let '(s', _, _) := lifetimes c reset lifo k s0 ctr ls in dirty_from [] (o_trace s') = o_dirty s'.
+Proof. exact lifetimes_trace_dirty. Qed.
+Print Assumptions C17_trace_dirty_is_bookkeeping.
+Theorem C17_allocators_replay : (forall strict, alloc_dirty (alloc_jit strict)) /\ alloc_dirty alloc_given.
+Proof. exact (conj alloc_jit_dirty alloc_given_dirty). Qed.
+Print Assumptions C17_allocators_replay.
+Example C17_replay_keeps_a_short_flush : dirty_from [] [EWrite 4096 [1;2;3;4;5]; EFlush 4096 4100] = [4100] /\ dirty_from [] [] = o_dirty (os0 (fun _ => 0)).
+Proof. split; reflexivity. Qed.
+Print Assumptions C17_replay_keeps_a_short_flush.
